@@ -118,6 +118,103 @@ theorem nameParts_total (v : Str) :
     (∃ g, givenNameFallback v = .ok g) ∧ (∃ s, surnameGroupPart v = .ok s) ∧ (∃ x, suffixFallback v = .ok x) :=
   ⟨⟨_, rfl⟩, ⟨_, rfl⟩, ⟨_, rfl⟩⟩
 
+/-! ### the surname slice: `CleanSpace` keeps the two slashes of group 2 -/
+
+open Gedcom.Resolve in
+section
+theorem dropFront47 (r : Str) : dropSpaceFront (47 :: r) = none := by
+  unfold dropSpaceFront
+  split <;> (try simp_all [isAsciiSpace])
+  all_goals (rename_i h; obtain ⟨rfl, _⟩ := h; simp +decide)
+
+theorem dropBack47 (r : Str) : dropSpaceBack (47 :: r) = none := by
+  unfold dropSpaceBack
+  split <;> (try simp_all [isAsciiSpace])
+  all_goals (rename_i h; obtain ⟨rfl, _⟩ := h; simp +decide)
+
+theorem trimFront47 (f : Nat) (r : Str) : trimFront f (47 :: r) = 47 :: r := by
+  cases f <;> simp [trimFront, dropFront47]
+
+theorem trimBackRev47 (f : Nat) (r : Str) : trimBackRev f (47 :: r) = 47 :: r := by
+  cases f <;> simp [trimBackRev, dropBack47]
+
+theorem trimSpace47 (m : Str) : trimSpace (47 :: (m ++ [47])) = 47 :: (m ++ [47]) := by
+  unfold trimSpace
+  simp only [trimFront47]
+  have : (47 :: (m ++ [47]) : Str).reverse = 47 :: (m.reverse ++ [47]) := by simp
+  rw [this, trimBackRev47]
+  simp
+
+theorem collapse47 (xs : Str) : collapseRuns (47 :: xs) = 47 :: collapseRuns xs := by
+  simp [collapseRuns]
+
+theorem collapseEnd47 : ∀ xs : Str, ∃ m, collapseRuns (xs ++ [47]) = m ++ [47]
+  | [] => ⟨[], by simp [collapseRuns]⟩
+  | b :: r => by
+    obtain ⟨m, hm⟩ := collapseEnd47 r
+    simp only [List.cons_append, collapseRuns]
+    split
+    · exact ⟨m, hm⟩
+    · exact ⟨b :: m, by simp [hm]⟩
+
+theorem cleanSpace47 (inner : Str) : ∃ m, cleanSpace (47 :: (inner ++ [47])) = 47 :: (m ++ [47]) := by
+  obtain ⟨m, hm⟩ := collapseEnd47 inner
+  refine ⟨m, ?_⟩
+  unfold cleanSpace
+  rw [collapse47, hm]
+  exact trimSpace47 m
+
+theorem surnameGroup_shape (v : Str) : surnameGroup v = [] ∨ ∃ inner, surnameGroup v = 47 :: (inner ++ [47]) := by
+  unfold surnameGroup
+  cases List.dropWhile (fun x => x != 47) v with
+  | nil => left; rfl
+  | cons _ r =>
+    by_cases h : (List.takeWhile (fun x => x != 47) r).length < r.length
+    · right; exact ⟨List.takeWhile (fun x => x != 47) r, by simp [h]⟩
+    · left; simp [h]
+
+end
+
+/-- `lastName[1 : lastNameLength-1]` is in range for every NAME value: the group is empty (early
+    exit) or `/…/`, and `CleanSpace` keeps both slashes, so the cleaned string has at least two bytes -/
+theorem surnameSlice_total (v : Str) : ∃ s, surnameSliced v = .ok s := by
+  unfold surnameSliced
+  rw [nameParts_surname]
+  simp only [R.bind]
+  rcases surnameGroup_shape v with h | ⟨inner, h⟩
+  · rw [h]
+    exact ⟨[], by decide⟩
+  · rw [h]
+    obtain ⟨m, hm⟩ := cleanSpace47 inner
+    rw [hm]
+    have hlen : ((47 :: (m ++ [47]) : Str).length : Int) = (m.length : Int) + 2 := by simp; omega
+    unfold sliceMid
+    have hb : (0:Int) ≤ 1 ∧ (1:Int) ≤ ((47 :: (m ++ [47]) : Str).length : Int) - 1 ∧
+        ((47 :: (m ++ [47]) : Str).length : Int) - 1 ≤ ((47 :: (m ++ [47]) : Str).length : Int) := by omega
+    simp only [List.isEmpty_cons, Bool.false_eq_true, if_false, hb, and_self, if_true]
+    exact ⟨_, rfl⟩
+
+/-- the slice computes what the existing surname model computes -/
+theorem surnameSliced_eq_fallback (v : Str) : surnameSliced v = surnameFallback v := by
+  unfold surnameSliced surnameFallback
+  rw [nameParts_surname]
+  simp only [R.bind, R.map]
+  rcases surnameGroup_shape v with h | ⟨inner, h⟩
+  · rw [h]; decide
+  · rw [h]
+    obtain ⟨m, hm⟩ := cleanSpace47 inner
+    rw [hm]
+    unfold sliceMid
+    have hb : (0:Int) ≤ 1 ∧ (1:Int) ≤ ((47 :: (m ++ [47]) : Str).length : Int) - 1 ∧
+        ((47 :: (m ++ [47]) : Str).length : Int) - 1 ≤ ((47 :: (m ++ [47]) : Str).length : Int) := by
+      simp; omega
+    simp only [List.isEmpty_cons, Bool.false_eq_true, if_false, hb, and_self, if_true]
+    congr 1
+    have e1 : (1 : Int).toNat = 1 := rfl
+    have e2 : (((47 :: (m ++ [47]) : Str).length : Int) - 1).toNat - 1 = (47 :: (m ++ [47]) : Str).length - 2 := by
+      simp
+    rw [e1, e2]
+
 /-! ## PlaceNode.JurisdictionalEntities -/
 
 theorem jurisdictionalEntities_total (name : Str) : ∃ r, jurisdictionalEntities name = .ok r := by
@@ -192,6 +289,7 @@ theorem partial_ops_invariants_named : chunks.all chunkNamed = true := by decide
 #check @progress_total
 #check @multipleSexes_total
 #check @nameParts_total
+#check @surnameSlice_total
 #check @jurisdictionalEntities_total
 #check @monthAbbrev_total
 
